@@ -23,6 +23,7 @@ import (
 
 	"github.com/ogen-go/ogen"
 	"github.com/ogen-go/ogen/gen"
+	"github.com/ogen-go/ogen/gen/ir"
 	"github.com/ogen-go/ogen/gen/genfs"
 	"github.com/ogen-go/ogen/location"
 
@@ -238,6 +239,7 @@ type c02Job struct {
 	pairs    []string // hostile stream: the position=name choices made
 	twin     []byte   // K13: the same document with control characters removed from names
 	collide  string   // K12: "position=name" of the collision stream
+	aliases  map[string]string // GenerateOptions.ContentTypeAliases
 	// results
 	outcome string // ok rejected unparsable panic timeout
 	msg     string
@@ -253,6 +255,9 @@ func (j *c02Job) input() map[string]any {
 	}
 	if j.specFile != "" {
 		in["spec_file"] = j.specFile
+	}
+	if j.aliases != nil {
+		in["content_type_aliases"] = j.aliases
 	}
 	if j.specFile == "" || j.label == "corpus-mutation" {
 		d := string(j.spec)
@@ -284,6 +289,12 @@ func c02Generate(j *c02Job, root string) {
 		}
 		if j.file != "" {
 			opts.Parser.File = location.NewFile(j.file, j.file, j.spec)
+		}
+		if j.aliases != nil {
+			opts.Generator.ContentTypeAliases = gen.ContentTypeAliases{}
+			for k, v := range j.aliases {
+				opts.Generator.ContentTypeAliases[k] = ir.Encoding(v)
+			}
 		}
 		if j.features != nil {
 			fs := gen.FeatureSet{}
@@ -625,6 +636,44 @@ func c02Compile(r *lp.Run, rng *lp.Rand) {
 	for _, h := range c02HostilePathText {
 		for _, fl := range [][]string{nil, feats} {
 			add(&c02Job{label: "hostile-paths", what: fmt.Sprintf("path text %q", h), spec: hostilePathDoc(h), features: fl})
+		}
+	}
+
+	// --- several media types of one response (or request) that come out as the same Go type: the same schema
+	// under two JSON-like media types, the second made JSON by a content-type alias; alone and next to other
+	// responses (the result type is then an interface with one case per media type)
+	for _, shape := range []string{"two-media-one-status", "two-media-two-statuses", "two-media-and-default", "request-two-media", "three-media"} {
+		for _, other := range []string{"same-schema", "other-schema"} {
+			js := func(n string) map[string]any { return map[string]any{"schema": map[string]any{"$ref": "#/components/schemas/" + n}} }
+			second := "Pet"
+			if other == "other-schema" {
+				second = "Err"
+			}
+			content := map[string]any{"application/json": js("Pet"), "application/vnd.pet+custom": js(second)}
+			if shape == "three-media" {
+				content["application/x-pet"] = js("Pet")
+			}
+			resps := map[string]any{"200": map[string]any{"description": "ok", "content": content}}
+			op := map[string]any{"operationId": "getPet", "responses": resps}
+			switch shape {
+			case "two-media-two-statuses":
+				resps["404"] = map[string]any{"description": "nf", "content": content}
+			case "two-media-and-default":
+				resps["default"] = map[string]any{"description": "e", "content": map[string]any{"application/json": js("Err")}}
+			case "two-media-one-status", "three-media":
+				resps["204"] = map[string]any{"description": "none"}
+			case "request-two-media":
+				op["requestBody"] = map[string]any{"required": true, "content": content}
+			}
+			doc, _ := json.Marshal(map[string]any{"openapi": "3.0.3", "info": map[string]any{"title": "t", "version": "1"},
+				"paths": map[string]any{"/pet": map[string]any{"post": op}},
+				"components": map[string]any{"schemas": map[string]any{
+					"Pet": map[string]any{"type": "object", "required": []any{"name"}, "properties": map[string]any{"name": map[string]any{"type": "string"}}},
+					"Err": map[string]any{"type": "object", "required": []any{"code"}, "properties": map[string]any{"code": map[string]any{"type": "integer"}}}}}})
+			for _, ce := range []int{0, -1} {
+				add(&c02Job{label: "media-aliases", what: shape + ", " + other, spec: doc, convErr: ce,
+					aliases: map[string]string{"application/vnd.pet+custom": "application/json", "application/x-pet": "application/json"}})
+			}
 		}
 	}
 
